@@ -48,8 +48,25 @@ def _txt(e):
 def _key(test):
     """(text, polarity) with leading nots folded"""
     pol = True
-    while isinstance(test, ast.UnaryOp) and isinstance(test.op, ast.Not):
-        test, pol = test.operand, not pol
+    while True:
+        if isinstance(test, ast.UnaryOp) and isinstance(test.op, ast.Not):
+            test, pol = test.operand, not pol
+            continue
+        # a != b is not (a == b); likewise `not in`, `is not`
+        if isinstance(test, ast.Compare) and len(test.ops) == 1 \
+                and isinstance(test.ops[0], (ast.NotEq, ast.NotIn, ast.IsNot)):
+            pos = {ast.NotEq: ast.Eq, ast.NotIn: ast.In, ast.IsNot: ast.Is}[type(test.ops[0])]
+            test = ast.Compare(left=test.left, ops=[pos()], comparators=test.comparators)
+            pol = not pol
+            continue
+        break
+    # symmetric comparison: the literal / f-string side on the right, else by text
+    if isinstance(test, ast.Compare) and len(test.ops) == 1 \
+            and isinstance(test.ops[0], (ast.Eq, ast.Is)):
+        l, r = test.left, test.comparators[0]
+        lit = lambda x: isinstance(x, (ast.Constant, ast.JoinedStr))   # noqa: E731
+        if (lit(l) and not lit(r)) or (lit(l) == lit(r) and _txt(l) > _txt(r)):
+            test = ast.Compare(left=r, ops=test.ops, comparators=[l])
     return _txt(test), pol
 
 
@@ -82,9 +99,7 @@ class Runner:
         txt, pol = _key(test)
         if txt in cases:
             return [(cases, cases[txt] == pol)]
-        inner = test
-        while isinstance(inner, ast.UnaryOp) and isinstance(inner.op, ast.Not):
-            inner = inner.operand
+        inner = ast.parse(txt, mode="eval").body
         d = self.decide(inner)
         if d == "skip":
             return [(cases, "skip")]
